@@ -4,7 +4,13 @@ import deps_check, core_check
 from c_deps_common import *
 
 def run(ctx):
-    cov = deps_check.run_property(ctx, "C01", FEATURES["C01"], NCASES["C01"], WANT["C01"], known_matcher=KNOWN.get("C01"))
+    # "after any history of ... earlier partial or failed builds": a share of the histories contains builds whose whole
+    # process tree is killed when a chosen script reaches a chosen step (same operation as C10's)
+    import random, depsgen, c10
+    rng = random.Random(ctx["seed"] * 43 + 1)
+    killed = [c10.with_crashes(rng, depsgen.gen_case(rng, features=FEATURES["C01"])) for _ in range(200 if ctx["tier"] == "thorough" else 20)]
+    cov = deps_check.run_property(ctx, "C01", FEATURES["C01"], NCASES["C01"], WANT["C01"], known_matcher=KNOWN.get("C01"), extra_cases=killed)
+    cov["histories_with_killed_builds"] = len(killed)
     if not ctx.get("replay"):
         ccov, cviol = core_check.run(ctx, "C01", 40)
         cov.update(ccov)
